@@ -1,13 +1,41 @@
-(* C02 - TL wire format equals the schema-defined serialisation.
-   (The equivalence theorem enc = spec is added from TL/SpecProofs.v when it lands.) *)
+(* C02 - TL wire format equals the schema-defined serialisation for every constructor.
+   Statements only; proofs in TL/SpecProofs.v (+ MatchProofs.v, RoundTrip.v), TL/Types.v.
+
+   spec S      the serialiser written from the TL definition alone, driven by the parsed schema S
+   abs U v     the schema-level reading of a codec value (constructor id, present/absent arguments)
+   all_in_schema U S tbl v   every object inside v belongs to a type whose descriptor matches its
+               schema line (struct_matches: parameters vs fields, position of `#`) and is well-formed
+   enc U / decode_unknown U   the encoder / decoder models tied to the Go code by the correspondence *)
 From Coq Require Import NArith List.
-From MTV Require Import Base.Bytes Base.Outcome TL.Types TL.Codec TL.Typing TL.TLText TL.Spec.
+From MTV Require Import Base.Bytes Base.Outcome TL.Types TL.Codec TL.Typing TL.TLText TL.Match TL.Spec
+  TL.RoundTrip TL.SpecProofs.
 Import ListNotations.
 Open Scope N_scope.
 
-(* a byte string of 2^24 bytes or more is refused rather than mis-encoded *)
-Theorem C02_too_large_refused : forall m, two24 <= blen m -> put_bytes m = None.
-Proof. exact put_bytes_too_large. Qed.
+(* the bytes produced for a value are exactly the TL serialisation the schema line defines *)
+Theorem C02_encode_is_spec : forall U S tbl v bs,
+  all_in_schema U S tbl v = true -> enc U v = Ok bs -> spec S (abs U v) = Some bs.
+Proof. exact encode_is_spec. Qed.
+Print Assumptions C02_encode_is_spec.
+
+(* ... and conversely whatever the schema serialisation is, the encoder produces it *)
+Theorem C02_spec_is_encode : forall U S tbl t v bs,
+  all_in_schema U S tbl v = true -> wt U t v = true -> spec S (abs U v) = Some bs -> enc U v = Ok bs.
+Proof. exact spec_is_encode. Qed.
+Print Assumptions C02_spec_is_encode.
+
+(* bytes built that way from the schema decode to the corresponding value *)
+Theorem C02_spec_decodes : forall U S tbl inflate, pseudo_ok U = true -> forall tid fs bs,
+  all_in_schema U S tbl (VObj tid fs) = true -> wt U (TIface 0) (VObj tid fs) = true ->
+  spec S (abs U (VObj tid fs)) = Some bs ->
+  exists f0, forall f, (f0 <= f)%nat -> decode_unknown U inflate f [] bs = DOk (norm U (VObj tid fs)).
+Proof. exact spec_decodes. Qed.
+Print Assumptions C02_spec_decodes.
+
+(* a byte string of 2^24 bytes or more is refused rather than mis-encoded, by both sides *)
+Theorem C02_too_large_refused : forall U s, two24 <= blen s ->
+  enc U (VStr s) = Err /\ enc U (VBytes false s) = Err /\ forall S, spec S (SStr s) = None.
+Proof. exact too_large_refused. Qed.
 Print Assumptions C02_too_large_refused.
 
 (* length-prefixed, 4-byte aligned strings with 1- or 4-byte headers read back *)
